@@ -140,7 +140,22 @@ def analyse(o):
     return maxidx + 1, names, res
 
 
-PRED_RE = re.compile(r"(\w+) : derive_more :: core :: fmt :: (\w+)")
+# the path by which an expansion names std's formatting traits is not part of the property
+FMT_TRAITS = "Display|Debug|Binary|Octal|LowerHex|UpperHex|LowerExp|UpperExp|Pointer"
+PRED_RE = re.compile(r"(\w+) : (?::: )?(?:\w+ :: )*(%s)\b" % FMT_TRAITS)
+DELEG_RE = re.compile(r"\b(?:%s) :: fmt \(" % FMT_TRAITS)
+
+
+def forwards_literal(t, tok):
+    """The literal token is handed to a formatting macro as its format string (first argument, or second after the
+    formatter expression), whatever the macro's path and the formatter binding are called."""
+    i = t.find(tok)
+    while i >= 0:
+        head = t[max(0, i - 200):i]
+        if re.search(r"\w+ ! \((?: ?[^,;{}]{1,120} ,)? ?$", head):
+            return True
+        i = t.find(tok, i + 1)
+    return False
 
 
 def where_preds(tokens):
@@ -155,6 +170,7 @@ def worker(args):
     import random
     rng = random.Random(seed * 7919 + idx)
     viol = []
+    unrec = []
     stats = {"literals": len(lits), "std_accepts": 0, "std_rejects": 0, "with_placeholders": 0, "expansions": 0,
              "direct_agree": 0, "beyond_documented_grammar": 0, "rejected_forward_checked": 0, "transparent_checked": 0, "panics": 0}
     classes = set()
@@ -261,11 +277,10 @@ def worker(args):
             if g["kind"] == "err":
                 continue
             t = g.get("tokens", "")
-            if ("write ! (__derive_more_f , " + tok) in t or ("format_args ! (" + tok) in t:
+            if forwards_literal(t, tok):
                 continue
-            viol.append(("silently-accepted:" + re.sub(r"`[^`]*`", "`_`", o.get("why", ""))[:50],
-                         "std rejects literal %r (%s) but the expansion does not hand it to the compiler: %s" % (lit, o.get("why"), item),
-                         {"literal": lit, "std": o, "item": item, "derive": tr, "expansion": t}))
+            # not recognisably forwarded: rustc itself decides below whether the derive compiles
+            unrec.append({"literal": lit, "std": o, "item": item, "derive": tr, "expansion": t})
             continue
         if g["kind"] != "ok":
             viol.append(("expand-err:" + g.get("msg", g["kind"])[:50], "std accepts %r but derive(%s) reports: %s" % (lit, tr, g.get("msg")),
@@ -285,14 +300,43 @@ def worker(args):
             if total_args <= 1:
                 stats["transparent_checked"] += 1
                 want_transparent = (o["mods"] == "-")
-                is_transparent = ("write !" not in t and "format_args !" not in t) and re.search(r":: fmt :: \w+ :: fmt \(", t) is not None
+                is_transparent = ("write !" not in t and "format_args !" not in t) and DELEG_RE.search(t) is not None
                 if want_transparent != is_transparent:
                     viol.append(("modifiers:" + o["canon"].split("|", 1)[1], "literal %r: std sees modifiers=%s but derive(%s) %s: %s" % (
                         lit, o["mods"], tr, "delegates transparently" if is_transparent else "does not delegate", item),
                         {"literal": lit, "std": o, "item": item, "derive": tr, "expansion": t}))
         if len(samples) < 3 and o["n"] >= 2:
             samples.append({"literal": lit, "std": o["canon"], "std_resolution": o["res"], "derive": tr, "item": item, "bounds_observed": sorted(have)})
-    return {"viol": viol, "stats": stats, "classes": classes, "samples": samples}
+    return {"viol": viol, "stats": stats, "classes": classes, "samples": samples, "unrec": unrec}
+
+
+def judge_unrecognised(ctx, unrec):
+    """Std-rejected literals whose expansion does not visibly hand the literal to a formatting macro: the property
+    only demands that such a derive fails to compile, so rustc decides (a bounded sample)."""
+    from . import l2
+    ctx.bump("rejected_not_visibly_forwarded", len(unrec))
+    if not unrec:
+        return
+    seen, pick = set(), []
+    for u in sorted(unrec, key=lambda u: (len(u["literal"]), u["literal"])):
+        k = re.sub(r"`[^`]*`", "`_`", u["std"].get("why", ""))[:50]
+        if (k, u["derive"]) in seen and len(pick) >= 48:
+            continue
+        seen.add((k, u["derive"]))
+        pick.append(u)
+        if len(pick) >= 96:
+            break
+    cases = []
+    for i, u in enumerate(pick):
+        item = "#[derive(derive_more::%s)]\n%s" % (u["derive"], u["item"].replace("struct S", "pub struct S").replace("(T0);", "(pub T0);").replace("{ x: T0, _0: u8 }", "{ pub x: T0, pub _0: u8 }"))
+        cases.append(l2.Case("u%d" % i, ("rejected-literal",), item, "", expect=0, meta=u))
+    errs = l2.build_negative(ctx, "rejlit", cases)
+    for c in cases:
+        ctx.bump("rejected_literals_decided_by_rustc")
+        if c.id not in errs:
+            u = c.meta
+            ctx.violate("silently-accepted:" + re.sub(r"`[^`]*`", "`_`", u["std"].get("why", ""))[:50],
+                        "std rejects literal %r (%s) but the derive compiles: %s" % (u["literal"], u["std"].get("why"), u["item"]), **u)
 
 
 def run(ctx):
@@ -318,6 +362,7 @@ def run(ctx):
             ctx.sample(s)
         for key, what, detail in r["viol"]:
             ctx.violate(key, what, **detail)
+    judge_unrecognised(ctx, [u for r in results for u in r["unrec"]])
     ctx.count(ctx.extra.get("literals", 0))
     if ctx.extra.get("with_placeholders", 0) < 1000 or ctx.extra.get("expansions", 0) < 1000:
         raise common.Inconclusive("too few placeholder literals observed")
